@@ -12,6 +12,12 @@
 
   Neither uniqueness of the names nor disjointness from the builtins is needed for
   completeness (`sort_complete'`); the statement of the task (`sort_complete`) is a corollary.
+
+  Include nodes (`incl = true`) may stand anywhere in the list, may carry the name of a definition
+  and may be given any dependencies: the rank condition is asked of the definitions only.  In the
+  proof a NODE rank `nr` is used (a definition: the rank of its name; an Include node: one more than
+  the ranks of its dependencies) - nothing is ever moved in front of a node because of an Include
+  node's NAME, so an Include node needs no rank of its own among the names.
 -/
 import ProphyModel.Topo
 import ProphyModel.Properties.C15
@@ -19,26 +25,29 @@ namespace Prophy
 namespace Topo
 
 theorem findIdx_none (dep : String) :
-    ∀ l : List TNode, findIdx dep l = none → dep ∉ l.map (·.name)
-  | [], _ => by simp
+    ∀ l : List TNode, findIdx dep l = none → dep ∉ availableOf l
+  | [], _ => by simp [availableOf]
   | n :: r, h => by
     simp only [findIdx] at h
-    by_cases hn : n.name = dep
+    by_cases hn : n.name = dep ∧ n.incl = false
     · simp [hn] at h
     · simp only [hn, if_false, Option.map_eq_none_iff] at h
       have ih := findIdx_none dep r h
-      simp only [List.map_cons, List.mem_cons, not_or]
-      exact ⟨fun e => hn e.symm, ih⟩
+      intro hmem
+      rcases C15.mem_availableOf.1 hmem with ⟨m, hm, hmi, hmn⟩
+      rcases List.mem_cons.1 hm with rfl | hm
+      · exact hn ⟨hmn, hmi⟩
+      · exact ih (C15.mem_availableOf.2 ⟨m, hm, hmi, hmn⟩)
 
-/-- the node moved to the front is the one `find_first_dep` found: it is named `dep` -/
+/-- the node moved to the front is the one `find_first_dep` found: it is named `dep` and is no Include -/
 theorem findIdx_moveFront (dep : String) :
     ∀ (l : List TNode) (k : Nat), findIdx dep l = some k →
-      ∃ y r, moveFront l k = y :: r ∧ y.name = dep
+      ∃ y r, moveFront l k = y :: r ∧ y.name = dep ∧ y.incl = false
   | [], _, h => by simp [findIdx] at h
   | n :: r, k, h => by
     simp only [findIdx] at h
-    by_cases hn : n.name = dep
-    · simp only [hn, if_true, Option.some.injEq] at h
+    by_cases hn : n.name = dep ∧ n.incl = false
+    · simp only [hn, and_self, if_true, Option.some.injEq] at h
       subst h
       exact ⟨n, r, by simp [moveFront], hn⟩
     · simp only [hn, if_false, Option.map_eq_some_iff] at h
@@ -47,40 +56,41 @@ theorem findIdx_moveFront (dep : String) :
       obtain ⟨y, r', hm, hy⟩ := findIdx_moveFront dep r k' hk'
       exact ⟨y, n :: r', by simp [moveFront, hm], hy⟩
 
-/-- number of nodes of `s` whose rank is below `b` -/
-def cnt (rank : String → Nat) (b : Nat) (s : List TNode) : Nat :=
-  (s.filter (fun n => decide (rank n.name < b))).length
+/-- number of nodes of `s` whose rank is below `b` (`nr` ranks NODES: a definition by the rank of its
+    name, an Include node above whatever it is made to depend on) -/
+def cnt (nr : TNode → Nat) (b : Nat) (s : List TNode) : Nat :=
+  (s.filter (fun n => decide (nr n < b))).length
 
-theorem cnt_perm (rank : String → Nat) (b : Nat) {s s' : List TNode} (h : s.Perm s') :
-    cnt rank b s = cnt rank b s' :=
+theorem cnt_perm (nr : TNode → Nat) (b : Nat) {s s' : List TNode} (h : s.Perm s') :
+    cnt nr b s = cnt nr b s' :=
   (h.filter _).length_eq
 
-theorem cnt_le_length (rank : String → Nat) (b : Nat) (s : List TNode) :
-    cnt rank b s ≤ s.length :=
+theorem cnt_le_length (nr : TNode → Nat) (b : Nat) (s : List TNode) :
+    cnt nr b s ≤ s.length :=
   List.length_filter_le _ _
 
-theorem cnt_mono (rank : String → Nat) {a b : Nat} (hab : a ≤ b) :
-    ∀ s : List TNode, cnt rank a s ≤ cnt rank b s
+theorem cnt_mono (nr : TNode → Nat) {a b : Nat} (hab : a ≤ b) :
+    ∀ s : List TNode, cnt nr a s ≤ cnt nr b s
   | [] => by simp [cnt]
   | n :: r => by
-    have ih := cnt_mono rank hab r
+    have ih := cnt_mono nr hab r
     unfold cnt at ih ⊢
     simp only [List.filter_cons]
-    by_cases h1 : rank n.name < a
-    · have h2 : rank n.name < b := by omega
+    by_cases h1 : nr n < a
+    · have h2 : nr n < b := by omega
       simp [h1, h2]; exact ih
-    · by_cases h2 : rank n.name < b
+    · by_cases h2 : nr n < b
       · simp [h1, h2]; omega
       · simp [h1, h2]; exact ih
 
 /-- a node of rank in `[a, b)` makes the count strictly smaller -/
-theorem cnt_lt (rank : String → Nat) {a b : Nat} (y : TNode) (hya : ¬ rank y.name < a)
-    (hyb : rank y.name < b) :
-    ∀ s : List TNode, y ∈ s → cnt rank a s < cnt rank b s
+theorem cnt_lt (nr : TNode → Nat) {a b : Nat} (y : TNode) (hya : ¬ nr y < a)
+    (hyb : nr y < b) :
+    ∀ s : List TNode, y ∈ s → cnt nr a s < cnt nr b s
   | [], h => by simp at h
   | n :: r, h => by
     have hab : a ≤ b := by omega
-    have hmono := cnt_mono rank hab r
+    have hmono := cnt_mono nr hab r
     by_cases hny : y = n
     · subst hny
       unfold cnt at hmono ⊢
@@ -90,41 +100,42 @@ theorem cnt_lt (rank : String → Nat) {a b : Nat} (y : TNode) (hya : ¬ rank y.
         cases h with
         | head => exact absurd rfl hny
         | tail _ h => exact h
-      have ih := cnt_lt rank y hya hyb r hyr
+      have ih := cnt_lt nr y hya hyb r hyr
       unfold cnt at ih ⊢
       simp only [List.filter_cons]
-      by_cases h1 : rank n.name < a
-      · have h2 : rank n.name < b := by omega
+      by_cases h1 : nr n < a
+      · have h2 : nr n < b := by omega
         simp [h1, h2]; exact ih
-      · by_cases h2 : rank n.name < b
+      · by_cases h2 : nr n < b
         · simp [h1, h2]; omega
         · simp [h1, h2]; exact ih
 
-/-- the unplaced available names are names of the suffix -/
+/-- the unplaced available names are names of definitions (non-Include nodes) of the suffix -/
 def Covered (known available : List String) (s : List TNode) : Prop :=
-  ∀ d, known.contains d = false → available.contains d = true → d ∈ s.map (·.name)
+  ∀ d, known.contains d = false → available.contains d = true → d ∈ availableOf s
 
 /-- the available dependencies of the nodes of `s` have smaller rank -/
-def Ranked (rank : String → Nat) (available : List String) (s : List TNode) : Prop :=
-  ∀ n ∈ s, ∀ d ∈ n.deps, available.contains d = true → rank d < rank n.name
+def Ranked (rank : String → Nat) (nr : TNode → Nat) (available : List String) (s : List TNode) : Prop :=
+  ∀ n ∈ s, ∀ d ∈ n.deps, available.contains d = true → rank d < nr n
 
 theorem Covered.perm {known available : List String} {s s' : List TNode}
     (h : Covered known available s) (hp : s'.Perm s) : Covered known available s' := by
   intro d hk ha
   have := h d hk ha
-  exact ((hp.map (·.name)).mem_iff).2 this
+  exact ((C15.availableOf_perm hp).mem_iff).2 this
 
-theorem Ranked.perm {rank : String → Nat} {available : List String} {s s' : List TNode}
-    (h : Ranked rank available s) (hp : s'.Perm s) : Ranked rank available s' :=
+theorem Ranked.perm {rank : String → Nat} {nr : TNode → Nat} {available : List String} {s s' : List TNode}
+    (h : Ranked rank nr available s) (hp : s'.Perm s) : Ranked rank nr available s' :=
   fun n hn => h n (hp.mem_iff.1 hn)
 
 /-- the `while model_sort_rotate()` loop at one position terminates normally when the fuel
     exceeds the number of suffix nodes ranked below the head -/
-theorem settle_complete (rank : String → Nat) (known available : List String) :
+theorem settle_complete (rank : String → Nat) (nr : TNode → Nat)
+    (hnr : ∀ n, n.incl = false → nr n = rank n.name) (known available : List String) :
     ∀ (fuel : Nat) (node : TNode) (rest : List TNode),
       Covered known available (node :: rest) →
-      Ranked rank available (node :: rest) →
-      cnt rank (rank node.name) (node :: rest) < fuel →
+      Ranked rank nr available (node :: rest) →
+      cnt nr (nr node) (node :: rest) < fuel →
       ∃ r, settle known available fuel (node :: rest) = some r
   | 0, _, _, _, _, h => by omega
   | fuel + 1, node, rest, hc, hr, hf => by
@@ -136,32 +147,31 @@ theorem settle_complete (rank : String → Nat) (known available : List String) 
       have hp := List.find?_some hfind
       have hmem : dep ∈ node.deps := List.mem_of_find?_eq_some hfind
       simp only [Bool.and_eq_true, Bool.not_eq_true'] at hp
-      have hrank : rank dep < rank node.name := hr node (by simp) dep hmem hp.2
+      have hrank : rank dep < nr node := hr node (by simp) dep hmem hp.2
       have hin := hc dep hp.1 hp.2
-      have hne : dep ≠ node.name := by
-        intro e; rw [e] at hrank; omega
-      simp only [List.map_cons, List.mem_cons] at hin
-      have hin' : dep ∈ rest.map (·.name) := by
-        cases hin with
-        | inl h => exact absurd h hne
-        | inr h => exact h
+      have hin' : dep ∈ availableOf rest := by
+        rcases C15.mem_availableOf.1 hin with ⟨m, hm, hmi, hmn⟩
+        rcases List.mem_cons.1 hm with rfl | hm
+        · -- the head itself is a definition named `dep`: excluded by the rank
+          rw [hnr m hmi, hmn] at hrank; omega
+        · exact C15.mem_availableOf.2 ⟨m, hm, hmi, hmn⟩
       cases hidx : findIdx dep rest with
       | none => exact absurd hin' (findIdx_none dep rest hidx)
       | some k =>
-        obtain ⟨y, r', hm, hy⟩ := findIdx_moveFront dep rest k hidx
+        obtain ⟨y, r', hm, hy, hyi⟩ := findIdx_moveFront dep rest k hidx
         have hmf : moveFront (node :: rest) (k + 1) = y :: node :: r' := by
           simp [moveFront, hm]
         have hperm : (y :: node :: r').Perm (node :: rest) := by
           rw [← hmf]; exact C15.moveFront_perm _ _
         simp only [hidx, hmf]
-        apply settle_complete rank known available fuel y (node :: r')
+        apply settle_complete rank nr hnr known available fuel y (node :: r')
           (hc.perm hperm) (hr.perm hperm)
         have hyin : y ∈ node :: rest := hperm.mem_iff.1 (by simp)
-        have h1 : cnt rank (rank y.name) (y :: node :: r')
-            = cnt rank (rank y.name) (node :: rest) := cnt_perm rank _ hperm
-        have h2 : cnt rank (rank y.name) (node :: rest)
-            < cnt rank (rank node.name) (node :: rest) :=
-          cnt_lt rank y (by omega) (by rw [hy]; exact hrank) _ hyin
+        have h1 : cnt nr (nr y) (y :: node :: r')
+            = cnt nr (nr y) (node :: rest) := cnt_perm nr _ hperm
+        have h2 : cnt nr (nr y) (node :: rest)
+            < cnt nr (nr node) (node :: rest) :=
+          cnt_lt nr y (by omega) (by rw [hnr y hyi, hy]; exact hrank) _ hyin
         omega
 
 theorem settle_nil (known available : List String) (fuel : Nat) :
@@ -169,67 +179,115 @@ theorem settle_nil (known available : List String) (fuel : Nat) :
   simp [settle, rotate]
 
 /-- the `for index in range(len(nodes))` loop never reports a cycle on a ranked suffix -/
-theorem sortFrom_complete (rank : String → Nat) (total : Nat) (available : List String) :
+theorem sortFrom_complete (rank : String → Nat) (nr : TNode → Nat)
+    (hnr : ∀ n, n.incl = false → nr n = rank n.name) (total : Nat) (available : List String) :
     ∀ (k : Nat) (s : List TNode) (known : List String),
-      s.length ≤ total → Covered known available s → Ranked rank available s →
+      s.length ≤ total → Covered known available s → Ranked rank nr available s →
       ∃ r, sortFrom total available k s known = some r
   | 0, s, _, _, _, _ => ⟨s, rfl⟩
   | k + 1, [], known, _, _, _ => by
     simp [sortFrom, settle_nil]
   | k + 1, node :: rest, known, hl, hc, hr => by
-    have hcnt : cnt rank (rank node.name) (node :: rest) < total + 1 := by
-      have := cnt_le_length rank (rank node.name) (node :: rest)
+    have hcnt : cnt nr (nr node) (node :: rest) < total + 1 := by
+      have := cnt_le_length nr (nr node) (node :: rest)
       omega
-    obtain ⟨r, hs⟩ := settle_complete rank known available (total + 1) node rest hc hr hcnt
+    obtain ⟨r, hs⟩ := settle_complete rank nr hnr known available (total + 1) node rest hc hr hcnt
     have hperm := C15.settle_perm _ _ _ _ _ hs
     simp only [sortFrom, hs]
     cases r with
     | nil => exact ⟨_, rfl⟩
     | cons m r' =>
       have hc' : Covered known available (m :: r') := hc.perm hperm
-      have hr' : Ranked rank available (m :: r') := hr.perm hperm
+      have hr' : Ranked rank nr available (m :: r') := hr.perm hperm
       have hlen : (m :: r').length = (node :: rest).length := hperm.length_eq
-      have hc'' : Covered (m.name :: known) available r' := by
+      have hc'' : Covered (if m.incl then known else m.name :: known) available r' := by
         intro d hk ha
-        simp only [List.contains_cons, Bool.or_eq_false_iff] at hk
-        have := hc' d hk.2 ha
-        simp only [List.map_cons, List.mem_cons] at this
-        cases this with
-        | inl h => simp [h] at hk
-        | inr h => exact h
-      have hr'' : Ranked rank available r' := fun n hn => hr' n (List.mem_cons_of_mem _ hn)
-      obtain ⟨t, ht⟩ := sortFrom_complete rank total available k r' (m.name :: known)
+        by_cases hmi : m.incl = true
+        · simp only [hmi, if_true] at hk
+          rcases C15.mem_availableOf.1 (hc' d hk ha) with ⟨x, hx, hxi, hxn⟩
+          rcases List.mem_cons.1 hx with rfl | hx
+          · rw [hmi] at hxi; cases hxi
+          · exact C15.mem_availableOf.2 ⟨x, hx, hxi, hxn⟩
+        · have hmi' : m.incl = false := by simpa using hmi
+          simp only [hmi', Bool.false_eq_true, if_false, List.contains_cons,
+            Bool.or_eq_false_iff] at hk
+          rcases C15.mem_availableOf.1 (hc' d hk.2 ha) with ⟨x, hx, hxi, hxn⟩
+          rcases List.mem_cons.1 hx with rfl | hx
+          · simp [hxn] at hk
+          · exact C15.mem_availableOf.2 ⟨x, hx, hxi, hxn⟩
+      have hr'' : Ranked rank nr available r' := fun n hn => hr' n (List.mem_cons_of_mem _ hn)
+      obtain ⟨t, ht⟩ := sortFrom_complete rank nr hnr total available k r' _
         (by simp at hlen hl; omega) hc'' hr''
       exact ⟨m :: t, by simp [ht]⟩
 
-/-- General form: the sort succeeds on every node list whose dependencies among the defined
-    names decrease a rank.  (No uniqueness of names, no condition on the builtins.) -/
+/-- a bound above the ranks of a list of names -/
+def maxRank (rank : String → Nat) : List String → Nat
+  | [] => 0
+  | d :: r => max (rank d) (maxRank rank r)
+
+theorem le_maxRank (rank : String → Nat) : ∀ (l : List String) (d : String), d ∈ l → rank d ≤ maxRank rank l
+  | [], _, h => by simp at h
+  | x :: l, d, h => by
+    simp only [maxRank]
+    rcases List.mem_cons.1 h with rfl | h
+    · omega
+    · have := le_maxRank rank l d h; omega
+
+/-- General form: the sort succeeds on every node list in which the dependencies of the DEFINITIONS
+    (non-Include nodes) on defined names decrease a rank.  Nothing is asked of the Include nodes
+    (whatever they are made to depend on, nothing depends on THEM: they are not `available` and
+    `find_first_dep` skips them); no uniqueness of names, no condition on the builtins; an Include
+    node may carry the name of a definition. -/
 theorem sort_complete' (g : List TNode) (rank : String → Nat)
-    (hr : ∀ n ∈ g, ∀ d ∈ n.deps, d ∈ g.map (·.name) → rank d < rank n.name) :
+    (hr : ∀ n ∈ g, n.incl = false → ∀ d ∈ n.deps, d ∈ availableOf g → rank d < rank n.name) :
     ∃ r, sort g = some r := by
   unfold sort
-  apply sortFrom_complete rank g.length (g.map (·.name)) g.length g builtins (Nat.le_refl _)
+  apply sortFrom_complete rank
+    (fun n => if n.incl then maxRank rank n.deps + 1 else rank n.name)
+    (by intro n hn; simp [hn]) g.length (availableOf g) g.length g builtins (Nat.le_refl _)
   · intro d _ ha
     simpa using ha
   · intro n hn d hd ha
-    exact hr n hn d hd (by simpa using ha)
+    by_cases hi : n.incl = true
+    · have := le_maxRank rank n.deps d hd
+      simp only [hi, if_true]; omega
+    · have hi' : n.incl = false := by simpa using hi
+      simp only [hi', Bool.false_eq_true, if_false]
+      exact hr n hn hi' d hd (by simpa using ha)
 
-/-- The statement of the task (`rank n` read as `rank n.name`: `rank` is a function of names).
+/-- The statement of the task (`rank n` read as `rank n.name`: `rank` is a function of names), for
+    lists with Include nodes: distinct names are asked of the definitions only (an Include node may
+    carry the name of a definition), the rank condition of the definitions only.
     `hn` and `hb` are not needed. -/
 theorem sort_complete (g : List TNode) (rank : String → Nat)
-    (_hn : (g.map (·.name)).Nodup)
-    (_hb : ∀ n ∈ g, n.name ∉ builtins)
-    (hr : ∀ n ∈ g, ∀ d ∈ n.deps, d ∈ g.map (·.name) → rank d < rank n.name) :
+    (_hn : (availableOf g).Nodup)
+    (_hb : ∀ n ∈ g, n.incl = false → n.name ∉ builtins)
+    (hr : ∀ n ∈ g, n.incl = false → ∀ d ∈ n.deps, d ∈ availableOf g → rank d < rank n.name) :
     ∃ r, sort g = some r :=
   sort_complete' g rank hr
 
+/-- `dependencies()` of an Include is empty (not needed by `sort_complete'`, which asks nothing of
+    the Include nodes) -/
+theorem toNodes_incl_deps (ds : List Decl) : ∀ n ∈ toNodes ds, n.incl = true → n.deps = [] := by
+  intro n hn hi
+  simp only [toNodes, List.mem_map] at hn
+  obtain ⟨d, _, rfl⟩ := hn
+  cases d <;> simp_all [Decl.rawDeps]
+
 /-- non-vacuity: a chain given in reverse order needs the maximal number of rotations at
     position 0 and is sorted -/
-example : (sort [⟨"D", ["C"]⟩, ⟨"C", ["B"]⟩, ⟨"B", ["A"]⟩, ⟨"A", []⟩]).map (·.map (·.name))
+example : (sort [⟨"D", ["C"], false⟩, ⟨"C", ["B"], false⟩, ⟨"B", ["A"], false⟩, ⟨"A", [], false⟩]).map (·.map (·.name))
     = some ["A", "B", "C", "D"] := by decide
+
+/-- non-vacuity with Include nodes: one carries the name of a definition, one is given a dependency
+    on a definition (the hypothesis of `sort_complete'` holds with the rank A < B < S) -/
+example : (sort [⟨"S", ["B"], true⟩, ⟨"S", ["B"], false⟩, ⟨"B", ["A"], false⟩, ⟨"i", [], true⟩, ⟨"A", [], false⟩]).map
+    (·.map (fun n => (n.name, n.incl)))
+    = some [("A", false), ("B", false), ("S", true), ("S", false), ("i", true)] := by decide
 
 end Topo
 end Prophy
 
 #print axioms Prophy.Topo.sort_complete'
 #print axioms Prophy.Topo.sort_complete
+#print axioms Prophy.Topo.toNodes_incl_deps
